@@ -6,6 +6,7 @@ import hashlib
 import os
 from dataclasses import dataclass, field
 from typing import Dict, List, Optional
+from .normalize import normalize
 
 
 class AnalysisError(Exception):
@@ -119,6 +120,7 @@ class Repo:
                     tree = ast.parse(src, filename=path)
                 except SyntaxError as e:
                     raise AnalysisError(f"cannot parse {rel}: {e}")
+                tree = normalize(tree)
                 mi = ModuleInfo(modname, path, rel, tree, src)
                 mi.is_pkg = fn == "__init__.py"
                 self.modules[modname] = mi
@@ -131,7 +133,7 @@ class Repo:
         if modname in self.modules:
             return self.modules[modname]
         src = open(path, encoding="utf-8").read()
-        tree = ast.parse(src, filename=path)
+        tree = normalize(ast.parse(src, filename=path))
         mi = ModuleInfo(modname, path, os.path.relpath(path, os.path.dirname(os.path.dirname(os.path.abspath(__file__)))), tree, src)
         mi.is_pkg = False
         mi.extra = True
